@@ -9,12 +9,14 @@ def gen(tier, seed):
     L = ["from harness.c13lib import *", ""]
     conds = []
 
-    def add(fn, sig, body, pre, what, args, timeout=None):
+    def add(fn, sig, body, pre, what, args, timeout=None, viol=None):
         fn = "h_" + fn
         L.extend(["def %s(%s) -> bool:" % (fn, args), '    """'] + ["    " + p for p in pre] + ["    post: _", '    """', "    return " + body, ""])
         c = {"fn": fn, "what": what, "sig": sig, "structure": "system"}
         if timeout:
             c["timeout"] = timeout
+        if viol:
+            c["viol"] = viol
         conds.append(c)
     S = "ABCDEFGHIJK"
     combos = [("A", "A", "A", "A"), ("B", "C", "D", "E"), ("G", "B", "H", "A"), ("J", "K", "C", "F")]
@@ -39,6 +41,11 @@ def gen(tier, seed):
         for uv in ("A", "B", "G"):
             add("touch_%s_%s" % (kind, uv), "c13-accessors", "accessors_touch_one_entry(%r, s, c, %r)" % (kind, uv), ["pre: 0 <= s <= 3 and 0 <= c <= 3"],
                 "set_state / get_state / set_chemostat / get_chemostat read and write exactly entry species*ncells+cell, converting units (%s, value given in system %s)" % (kind, uv), "s: int, c: int", timeout=240)
+    for kind in ("grid", "graph"):
+        for (un, usy) in (("A", "G"), ("B", "A"), ("G", "J")):
+            add("touch_units_%s_%s%s" % (kind, un, usy), "c13-accessors", "accessors_touch_one_entry(%r, s, c, 'B', %r, %r)" % (kind, un, usy), ["pre: 0 <= s <= 3 and 0 <= c <= 3"],
+                "the same when the network's units system (%s: the default state is generated in it) differs from the system's (%s: bare numbers passed to set_state are in it) (%s)" % (un, usy, kind),
+                "s: int, c: int", timeout=240, viol="a per-entry setter / getter does not convert between the system's units and the units the state is stored in")
     add("regen", "c13-regenerate", "regenerate_reflects_edit(s, [e0, e1])", ["pre: 0 <= s <= 3 and 0 <= e0 <= 2 and 0 <= e1 <= 2"], "regenerating the defaults after editing a species reflects the edit", "s: int, e0: int, e1: int", timeout=240)
     return "\n".join(L), conds
 
